@@ -293,8 +293,8 @@ def _views(fn: pf.FuncDef, where: str):
             return None
         if isinstance(e, ast.Subscript) and isinstance(e.value, ast.Name) and e.value.id == var:
             s = e.slice
-            if isinstance(s, ast.Constant) and s.value == 0:
-                return View('first')
+            if isinstance(s, ast.Constant) and isinstance(s.value, int) and s.value >= 0:
+                return View('index', s.value)
             if isinstance(s, ast.UnaryOp) and isinstance(s.op, ast.USub) and isinstance(s.operand, ast.Constant) and s.operand.value == 1:
                 return View('last')
             if isinstance(s, ast.Slice) and s.step is None:
@@ -426,8 +426,8 @@ def check_copy(ctx: Ctx, t: ic.Table) -> None:
             bound_all.append((dcls, call, b, extra))
         if problems:
             ctx.bad('R6', cons, f'{cls.name}.copy ' + problems[0] + (f' (+{len(problems) - 1} more)' if len(problems) > 1 else ''), owner.mod.path, fn.lineno)
-        else:
-            ctx.ok('R6', cons, {'params': params, 'vararg': var, 'layouts': [repr(l) for l in lays]})
+            continue  # placement (R5) is moot when copy cannot be executed with the registered children
+        ctx.ok('R6', cons, {'params': params, 'vararg': var, 'layouts': [repr(l) for l in lays]})
         # ---- R5: class and placement ------------------------------------------------------------------------------
         problems = []
         notes = []
@@ -447,6 +447,10 @@ def check_copy(ctx: Ctx, t: ic.Table) -> None:
                         e = extra[0] if len(extra) == 1 else None
                     if e is None:
                         if seg.kind == 'opt':
+                            continue
+                        ctor_params = {a.arg for a in _ctor(t, dcls).args.args} | ({_ctor(t, dcls).args.vararg.arg} if _ctor(t, dcls).args.vararg else set())
+                        if seg.name not in ctor_params:
+                            notes.append(f'child `{seg.name}` of {dcls.name} is built inside its constructor')
                             continue
                         raise AnalysisError(f'{where}: child `{seg.name}` of {dcls.name} is not bound by `{pf.nsrc(call)[:80]}`')
                     v = view(e)
@@ -487,10 +491,20 @@ def check_copy(ctx: Ctx, t: ic.Table) -> None:
                                     problems.append(f'child group `{seg.name}` is rebuilt from {v} of the arguments')
                             elif v.kind != want:
                                 problems.append(f'child group `{seg.name}` is rebuilt from the `{v.kind}` part of the arguments, expected `{want}`')
+                        elif not any(s.kind == 'star' for s in segs):
+                            # fixed child list rebuilt from *args: args[k] must go back to child k (args[-1] is the last child)
+                            got_idx = v.arg if v.kind == 'index' else (len(segs) - 1 if v.kind == 'last' else None)
+                            if got_idx != idx:
+                                problems.append(f'child `{seg.name}` (#{idx}) is rebuilt from `{v}` of the arguments: the rebuilt node has its children permuted')
                         else:
-                            exp = 'last' if idx == len(segs) - 1 and segs[0].kind == 'star' else ('first' if idx == 0 else None)
-                            if exp is None or v.kind != exp:
-                                problems.append(f'child `{seg.name}` (#{idx}) is rebuilt from the `{v.kind}` part of the arguments' + (f', expected `{exp}`' if exp else ''))
+                            if idx == len(segs) - 1 and segs[0].kind == 'star':
+                                ok = v.kind == 'last'
+                            elif idx == 0:
+                                ok = v.kind == 'index' and v.arg == 0
+                            else:
+                                raise AnalysisError(f'{where}: child `{seg.name}` in the middle of a variable-length layout {dlay}')
+                            if not ok:
+                                problems.append(f'child `{seg.name}` (#{idx}) is rebuilt from `{v}` of the arguments, expected {"the last" if idx else "the first"} argument')
         if problems:
             ctx.bad('R5', cons, f'{cls.name}.copy: ' + problems[0] + (f' (+{len(problems) - 1} more)' if len(problems) > 1 else ''), owner.mod.path, fn.lineno)
         else:
@@ -503,7 +517,7 @@ def run(ctx: Ctx) -> None:
     ctx.explanation = ('Symbolic evaluation of the environments each _compute_type passes to each registered child, compared with the binder and '
                        'context-switch metadata of that child position; constructor/copy signature binding for the rebuild path used by map_ir/subst.')
     ctx.rule('R1', 'each child is typed under the parent environment extended with exactly the names the node binds for that child', 150)
-    ctx.rule('R2', 'children evaluated in the agg/scan context are typed in agg_env (and only those)', 150)
+    ctx.rule('R2', 'children evaluated in the agg/scan context are typed in agg_env (and only those)', 130)
     ctx.rule('R3', 'typing calls pass (env, agg_env, deep_typecheck) / (deep_typecheck) with the flag in the flag position', 220)
     ctx.rule('R4', 'ttable/tmatrix env methods: same keys with and without default_value; global within row/col within entry', 10)
     ctx.rule('R5', 'copy rebuilds the same class with argument k back at child position k', 100)
